@@ -68,9 +68,10 @@ const (
 	c12KRound
 	c12KGhost
 	c12KInterleave // only drawn by the interleave leg (vf_c12_interleave_test.go)
+	c12KRestart    // coordinator restart over the same store (optionally: first request hits a store read fault)
 )
 
-var c12KindNames = []string{"joinNew", "rejoin", "sync", "hb", "leave", "commit", "advance", "topic", "round", "ghost", "interleave"}
+var c12KindNames = []string{"joinNew", "rejoin", "sync", "hb", "leave", "commit", "advance", "topic", "round", "ghost", "interleave", "restart"}
 
 type c12Act struct {
 	Kind    int   `json:"k"`
@@ -114,6 +115,7 @@ type c12Client struct {
 	left     bool // LeaveGroup answered NONE for this id
 	ghost    bool // never joined
 	replaced bool // a later join with this id was answered with a different id
+	gone     bool // the id was seen as a member and later seen absent (left, expired, dropped)
 }
 
 type c12GenRec struct {
@@ -124,6 +126,8 @@ type c12GenRec struct {
 	leader       string
 	leaderSynced bool
 	covered      bool
+	armed        bool // all members joined this generation and the leader's sync succeeded ...
+	armedEvents  int  // ... when the membership-event counter had this value
 }
 
 type c12WB struct {
@@ -151,22 +155,25 @@ type c12Result struct {
 }
 
 type c12Run struct {
-	t      *testing.T
-	c      *GroupCoordinator
-	store  *metadata.InMemoryStore
-	gs     *c12GateStore // what the coordinator talks to: store + scheduling points
-	inside int           // requests that ran inside another request's store call (interleave leg)
-	ctx    context.Context
-	opts   c12Opts
-	env    c12Env
-	parts  map[string]int // harness's own record of partition counts
-	cl     []*c12Client
-	inc    int   // group incarnation (bumped whenever the group is observed absent)
-	maxGen int32 // highest generation reported by a join reply in this incarnation
-	joined map[string]int32
-	gens   map[string]*c12GenRec
-	rebal  int // generation bumps observed in this incarnation beyond the first
-	res    *c12Result
+	t       *testing.T
+	c       *GroupCoordinator
+	store   *metadata.InMemoryStore
+	gs      *c12GateStore // what the coordinator talks to: store + scheduling points
+	inside  int           // requests that ran inside another request's store call (interleave leg)
+	events  int           // membership events seen by the harness: member set changed, subscription changed
+	lastSet map[string]bool
+	brk     protocol.MetadataBroker
+	ctx     context.Context
+	opts    c12Opts
+	env     c12Env
+	parts   map[string]int // harness's own record of partition counts
+	cl      []*c12Client
+	inc     int   // group incarnation (bumped whenever the group is observed absent)
+	maxGen  int32 // highest generation reported by a join reply in this incarnation
+	joined  map[string]int32
+	gens    map[string]*c12GenRec
+	rebal   int // generation bumps observed in this incarnation beyond the first
+	res     *c12Result
 }
 
 func c12EncodeSub(topics []string) []byte {
@@ -288,6 +295,13 @@ func c12Peek(c *GroupCoordinator) c12WB {
 	defer c.mu.Unlock()
 	w := c12WB{members: map[string]int32{}, lastHB: map[string]time.Time{}, sess: map[string]time.Duration{}}
 	st, ok := c.groups[c12Group]
+	if !ok {
+		// not loaded (after a coordinator restart): the group is what the store says, this is
+		// exactly what the next request will load
+		if rec, err := c.store.FetchConsumerGroup(context.Background(), c12Group); err == nil && rec != nil {
+			st, ok = restoreGroupState(rec), true
+		}
+	}
 	if !ok || st == nil || len(st.members) == 0 {
 		return w
 	}
@@ -356,6 +370,26 @@ func (r *c12Run) rec(gen int32) *c12GenRec {
 // observe is called after every primitive and every time advance: it notices the end of a
 // group incarnation (generation monotonicity only holds "while the group exists").
 func (r *c12Run) observe(w c12WB) {
+	changed := len(w.members) != len(r.lastSet)
+	for id := range w.members {
+		if !r.lastSet[id] {
+			changed = true
+		}
+	}
+	if changed {
+		r.events++
+		for id := range r.lastSet {
+			if _, ok := w.members[id]; !ok {
+				if c := r.clientByID(id); c != nil {
+					c.gone = true
+				}
+			}
+		}
+		r.lastSet = map[string]bool{}
+		for id := range w.members {
+			r.lastSet[id] = true
+		}
+	}
 	if !w.exists {
 		if r.maxGen != 0 || len(r.joined) != 0 {
 			r.inc++
@@ -413,12 +447,21 @@ func (r *c12Run) doJoin(cl *c12Client, sendID string, sub []string, sess, reb in
 	p.Metadata = c12EncodeSub(sub)
 	req.Protocols = append(req.Protocols, p)
 
+	faultsBefore := r.gs.faultCount()
 	resp, err := r.c.JoinGroup(r.ctx, req)
 	post := c12Peek(r.c)
 	if err != nil || resp == nil {
+		r.tr("join %q -> err %v", sendID, err)
+		if r.gs.faultCount() > faultsBefore {
+			r.class("fault/join-rejected-with-error") // a clean rejection is always acceptable
+			r.observe(post)
+			return cl
+		}
 		r.violate("C14", "JoinGroup returned error %v", err)
-		r.tr("join %q -> err", sendID)
 		return cl
+	}
+	if cl != nil && cl.id == resp.MemberID && !c12SameSet(cl.sub, sub) {
+		r.events++ // a changed subscription is a membership event (it may legitimately restart the rebalance)
 	}
 	code := resp.ErrorCode
 	r.tr("join %s sub=%v ph=%s -> code=%d gen=%d id=%s leader=%s members=%d", c12Short(sendID), sub, c12Phase(pre.phase), code, resp.Generation, c12Short(resp.MemberID), c12Short(resp.LeaderID), len(resp.Members))
@@ -527,6 +570,9 @@ func (r *c12Run) mustReject(pre c12WB, cl *c12Client, id string, gen int32) (boo
 	if cl != nil && (cl.left || cl.ghost) {
 		return true, "left-or-ghost"
 	}
+	if cl != nil && cl.gone && cl.id == id {
+		return true, "removed-earlier"
+	}
 	if gen != pre.gen {
 		if gen < r.maxGen {
 			return true, "stale-gen"
@@ -539,7 +585,7 @@ func (r *c12Run) mustReject(pre c12WB, cl *c12Client, id string, gen int32) (boo
 func (r *c12Run) noteReject(why string) {
 	r.res.rejects++
 	r.class("mustreject/" + why)
-	if r.rebal > 0 && (why == "stale-gen" || why == "not-member" || why == "left-or-ghost") {
+	if r.rebal > 0 && (why == "stale-gen" || why == "not-member" || why == "left-or-ghost" || why == "removed-earlier") {
 		r.res.feats["stale-after-rebalance"] = true
 	}
 }
@@ -560,11 +606,30 @@ func (r *c12Run) doSync(cl *c12Client, gen int32) {
 	// is parked in a store call by the interleave leg must not be judged by later events)
 	rej, why := r.mustReject(pre, cl, cl.id, gen)
 	insideBefore := r.inside
+	faultsBefore := r.gs.faultCount()
+	// generation gen was completed (everybody joined it, leader synced) and the harness has
+	// seen no membership event since: this member's sync must succeed
+	expectOK := false
+	if g := r.gens[r.genKey(gen)]; g != nil && g.armed && g.armedEvents == r.events && !cl.left && !cl.gone && !cl.ghost && r.joined[cl.id] == gen {
+		expectOK = true
+	}
 	resp, err := r.c.SyncGroup(r.ctx, req)
 	post := c12Peek(r.c)
 	if err != nil || resp == nil {
+		if r.gs.faultCount() > faultsBefore {
+			r.tr("sync %s gen=%d -> err %v (injected store fault)", c12Short(cl.id), gen, err)
+			r.class("fault/sync-rejected-with-error")
+			r.observe(post)
+			return
+		}
 		r.violate("C13", "SyncGroup returned error %v", err)
 		return
+	}
+	if expectOK && r.inside == insideBefore && r.gs.faultCount() == faultsBefore {
+		r.class("c14/sync-in-completed-generation-without-membership-event")
+		if resp.ErrorCode != protocol.NONE {
+			r.violate("C14", "generation %d was completed (all members joined, leader synced) and no member joined, left, expired or changed its subscription since, but sync of member %s for that generation got error %d (group now generation %d phase %s)", gen, cl.id, resp.ErrorCode, post.gen, c12Phase(post.phase))
+		}
 	}
 	code := resp.ErrorCode
 	r.tr("sync %s gen=%d ph=%s -> code=%d", c12Short(cl.id), gen, c12Phase(pre.phase), code)
@@ -611,6 +676,17 @@ func (r *c12Run) doSync(cl *c12Client, gen int32) {
 	}
 	if g.leader == cl.id || post.leader == cl.id {
 		g.leaderSynced = true
+	}
+	if g.leaderSynced && !g.armed && post.exists && post.gen == gen {
+		all := true
+		for id := range post.members {
+			if r.joined[id] != gen {
+				all = false
+			}
+		}
+		if all {
+			g.armed, g.armedEvents = true, r.events
+		}
 	}
 	asg, derr := c12DecodeAssignment(resp.MemberAssignment)
 	if derr != nil {
@@ -795,8 +871,18 @@ func (r *c12Run) doCommit(cl *c12Client, gen int32, topic string, part int32, of
 	rej, why := r.mustReject(pre, cl, cl.id, gen)
 	joinedGen := r.joined[cl.id]
 	insideBefore := r.inside
+	faultsBefore := r.gs.faultCount()
 	resp, err := r.c.OffsetCommit(r.ctx, req)
 	post := c12Peek(r.c)
+	if (err != nil || resp == nil) && r.gs.faultCount() > faultsBefore {
+		r.tr("commit %s gen=%d -> err %v (injected store fault)", c12Short(cl.id), gen, err)
+		r.class("fault/commit-rejected-with-error")
+		if !c12OffsetsEqual(offBefore, r.offsets()) {
+			r.violate("C13", "commit rejected with an error changed committed offsets")
+		}
+		r.observe(post)
+		return
+	}
 	if err != nil || resp == nil {
 		r.violate("C13", "OffsetCommit returned error %v", err)
 		return
@@ -1001,7 +1087,9 @@ func (r *c12Run) step(a c12Act) {
 			r.cl = append(r.cl, gh)
 		}
 		g := r.resolveGen(gh, a.GenSel, a.GenOff)
-		switch a.TMode % 3 {
+		switch a.TMode % 4 {
+		case 3:
+			r.doLeave(gh) // goodbye from somebody who never was a member
 		case 0:
 			r.doHeartbeat(gh, g)
 		case 1:
@@ -1032,6 +1120,8 @@ func (r *c12Run) step(a c12Act) {
 		r.round(a)
 	case c12KInterleave:
 		r.interleaveAct(a)
+	case c12KRestart:
+		r.restartAct(a)
 	}
 }
 
@@ -1116,6 +1206,9 @@ func (r *c12Run) round(a c12Act) {
 			r.doSync(lc, lc.ownGen)
 		}
 	}
+	if a.Part%4 == 1 {
+		r.staleLeave(a.Who)
+	}
 	for _, cl := range rot {
 		r.doSync(cl, cl.ownGen)
 	}
@@ -1155,9 +1248,9 @@ func c12Execute(t *testing.T, env c12Env, opts c12Opts) *c12Result {
 		store := metadata.NewInMemoryStore(metadata.ClusterMetadata{Brokers: []protocol.MetadataBroker{brk}, ControllerID: 1, Topics: topics})
 		gs := &c12GateStore{InMemoryStore: store}
 		c := NewGroupCoordinator(gs, brk, &CoordinatorConfig{CleanupInterval: time.Duration(env.CleanupMs) * time.Millisecond})
-		defer c.Stop()
-		r := &c12Run{t: t, c: c, store: store, gs: gs, ctx: context.Background(), opts: opts, env: env, parts: parts,
+		r := &c12Run{t: t, c: c, store: store, gs: gs, brk: brk, lastSet: map[string]bool{}, ctx: context.Background(), opts: opts, env: env, parts: parts,
 			joined: map[string]int32{}, gens: map[string]*c12GenRec{}, res: res}
+		defer func() { r.c.Stop() }()
 		// odd sub-millisecond start so that harness actions never coincide with a cleanup tick
 		time.Sleep(137 * time.Microsecond)
 		for _, a := range env.Script {
@@ -1192,6 +1285,7 @@ func c12DrawEnv(t *rapid.T) c12Env {
 		c12KTopic,
 		c12KRound, c12KRound, c12KRound, c12KRound,
 		c12KGhost,
+		c12KRestart,
 	}
 	n := rapid.IntRange(4, 40).Draw(t, "steps")
 	for i := 0; i < n; i++ {
@@ -1364,7 +1458,7 @@ func c12DrawActFields(t *rapid.T, ap *c12Act) {
 	case c12KGhost:
 		a.Who = rapid.IntRange(0, 2).Draw(t, "who")
 		a.GenSel = rapid.SampledFrom(c12Gensel).Draw(t, "gensel")
-		a.TMode = rapid.IntRange(0, 2).Draw(t, "op")
+		a.TMode = rapid.IntRange(0, 3).Draw(t, "op")
 		a.Topic = rapid.IntRange(0, 3).Draw(t, "topic")
 		a.Off = int64(rapid.IntRange(0, 1000).Draw(t, "off"))
 	case c12KAdvance:
@@ -1377,6 +1471,12 @@ func c12DrawActFields(t *rapid.T, ap *c12Act) {
 		a.Who = rapid.IntRange(0, 3).Draw(t, "rot")
 		a.TMode = rapid.IntRange(0, 3).Draw(t, "order")
 		a.TAmt = rapid.IntRange(0, 1).Draw(t, "rejoinall")
+		a.Part = rapid.IntRange(0, 3).Draw(t, "staleleave")
+	case c12KRestart:
+		a.TMode = rapid.SampledFrom([]int{0, 0, 1, 1, 2, 3}).Draw(t, "first")
+		a.Who = rapid.IntRange(0, 23).Draw(t, "who")
+		a.Sub = rapid.IntRange(0, 15).Draw(t, "sub")
+		a.TAmt = rapid.IntRange(0, 2).Draw(t, "op")
 	}
 	*ap = a
 }
